@@ -272,7 +272,8 @@ fn note_entries(ctx: &mut Ctx, calls: &[Call], times: u64) {
 }
 
 fn history_case(ctx: &mut Ctx) {
-    let n = ctx.rng.range(10, 24) as usize;
+    let miri = ctx.tier == Tier::Miri;
+    let n = if miri { 10 } else { ctx.rng.range(10, 24) as usize };
     let calls = gen_list(&mut ctx.rng, n);
     let unrelated = gen_list(&mut ctx.rng, 10);
     let key = format!("{:?}", calls);
@@ -310,7 +311,7 @@ fn history_case(ctx: &mut Ctx) {
         }
     }
     // (e) repeated
-    for _ in 0..3 {
+    for _ in 0..(if miri { 0 } else { 3 }) {
         for i in 0..n {
             if exec_call(&calls[i]) != first[i] {
                 fail(ctx, "repeated", i);
@@ -354,7 +355,7 @@ fn heap_case(ctx: &mut Ctx) {
 
 fn thread_case(ctx: &mut Ctx) {
     let n_threads = if ctx.tier == Tier::Miri { 3 } else { 16 };
-    let n_calls = if ctx.tier == Tier::Miri { 10 } else { 40 };
+    let n_calls = if ctx.tier == Tier::Miri { 8 } else { 40 };
     let calls = Arc::new(gen_list(&mut ctx.rng, n_calls));
     ctx.rep.case(format!("thr{:?}", calls).as_bytes(), true);
     let expected: Arc<Vec<u64>> = Arc::new(calls.iter().map(exec_call).collect());
